@@ -16,6 +16,7 @@ func init() {
 	vrt.Register("C03_bytes_tag4", BytesTag4)
 	vrt.Register("C03_tokens", Tokens)
 	vrt.Register("C03_template_api", TemplateAPI)
+	vrt.Register("C03_histories", Histories)
 }
 
 var framings = [][2]string{
@@ -135,4 +136,28 @@ func TemplateAPI() {
 	}
 	vrt.Assert(t != nil, "a successful parse yields a template")
 	vrt.Cover("parsed")
+}
+
+// totality is also a matter of histories: with the cache on, a call that
+// returned an error must leave the package able to answer the next call
+func Histories() {
+	fa := framings[vrt.Choice(len(framings))]
+	fb := framings[vrt.Choice(4)]
+	a := fa[0] + vrt.Bytes(1) + fa[1]
+	b := fb[0] + "x" + fb[1]
+	vrt.Note("a", a)
+	vrt.Note("b", b)
+	plush.CacheEnabled = true
+	_, e1 := plush.Parse(a)
+	_, e2 := plush.Parse(b)
+	_, e3 := plush.Parse(a)
+	_, e4 := plush.Render(b, plush.NewContext())
+	t, _ := plush.NewTemplate("x")
+	plush.CacheSet("k", t)
+	plush.CacheEnabled = false
+	vrt.Assert((e1 == nil) == (e3 == nil), "parsing the same text again gives the same verdict")
+	if e2 != nil {
+		vrt.Assert(e4 != nil, "Render fails when Parse fails")
+	}
+	vrt.Cover("done")
 }
